@@ -69,6 +69,8 @@ func checkC16(c *Check, a *Anchors) {
 	lockReleasedOnEveryExit(c, a, "lock-released-on-every-exit")
 	errorsNotSwallowed(c, a)
 	errorBranchExits(c, a, "error-branch-exits")
+	noSlotHeldAcrossRecursion(c, a, "no-slot-held-across-recursion")
+	deepCopyNilSafe(c, a, "deepcopy-nil-safe")
 	recursionReviewed(c, a, "recursion-reviewed") // termination of loading / merging / compiling: the recursions are the only unbounded construct besides the reviewed loops
 }
 
